@@ -166,6 +166,8 @@ def probe_supported(it, zeroize):
             return False        # known finding F11: a Drop impl with extra bounds is always rejected by rustc (E0367)
         if a[0] == 'Other' and ('derive_where' in a[1][1] or a[1][1][-1] == 'derive_where_visited'):
             return False        # a second attribute-macro invocation: outside the single-invocation model
+        if a[0] == 'Other' and a[1][1][-1] not in ('doc', 'allow', 'cfg', 'deprecated', 'must_use', 'non_exhaustive', 'warn', 'deny', 'forbid', 'inline'):
+            return False        # somebody else's attribute (`#[serde(..)]`): rustc cannot resolve it in the probe crate
     reprs = [i for a in it['attrs'] if a[0] == 'Repr' and a[1][0] == 'Idents' for i in a[1][1]]
     ints = [r for r in reprs if r not in ('C', 'Rust')]
     INT_REPRS = ('u8', 'u16', 'u32', 'u64', 'u128', 'usize', 'i8', 'i16', 'i32', 'i64', 'i128', 'isize')
